@@ -6,6 +6,7 @@ package c07
 import (
 	"encoding/json"
 	"fmt"
+	"github.com/cloudwego/hertz/pkg/app"
 	"path"
 	"strings"
 	"sync/atomic"
@@ -183,6 +184,67 @@ func checkOne(c *mc.Ctx, u *protocol.URI, target string) {
 	}
 }
 
+type VCase struct {
+	Host   string `json:"host"`
+	Target string `json:"target"`
+}
+
+func vhostOne(c *mc.Ctx, rew app.PathRewriteFunc, ctx *app.RequestContext, host, target string) {
+	ctx.Request.Reset()
+	ctx.Request.SetRequestURI(target)
+	ctx.Request.SetHost(host)
+	ctx.Request.Header.SetHost(host)
+	got := string(rew(ctx))
+	first, rest := got, ""
+	if i := strings.IndexByte(got[min1(len(got)):], '/'); i >= 0 {
+		first, rest = got[1:1+i], got[1+i:]
+	} else if len(got) > 0 {
+		first = got[1:]
+	}
+	want := RefPath(target)
+	if rest == "" {
+		rest = "/"
+	}
+	if (first != host && first != "invalid-host") || rest != want || !strings.HasPrefix(got, "/") {
+		c.Violate("vhost-rewriter|host="+host, fmt.Sprintf("NewVHostPathRewriter(0) with Host %q and target %q serves from %q; expected the directory of that host (or invalid-host) followed by %q (the path decoded once and resolved)", host, target, got, want), VCase{host, target})
+	}
+}
+
+func min1(n int) int {
+	if n < 1 {
+		return n
+	}
+	return 1
+}
+
+func vhost(c *mc.Ctx) {
+	rew := app.NewVHostPathRewriter(0)
+	hosts := []string{"a.com", "..", ".", "a.com%2f..", "%2e%2e", "a.com/.."}
+	al := []string{"/", ".", "a", "%2e", "%2f", "%252e", "%252f", "%", ".."}
+	n := 5
+	if c.Thorough() {
+		n = 6
+	}
+	ctx := app.NewContext(0)
+	var cnt int64
+	var rec func(s string, d int)
+	rec = func(s string, d int) {
+		for _, h := range hosts {
+			vhostOne(c, rew, ctx, h, "/"+s)
+			cnt++
+		}
+		if d == n {
+			return
+		}
+		for _, t := range al {
+			rec(s+t, d+1)
+		}
+	}
+	rec("", 0)
+	c.Add("executions", cnt)
+	c.Extra("vhost_rewriter_cases", cnt)
+}
+
 func enum(c *mc.Ctx, alpha []string, maxTok int, tag, pad string) {
 	ev := c.Counter("executions")
 	nt := c.Counter("nontrivial")
@@ -265,6 +327,9 @@ func run(c *mc.Ctx) {
 			}
 		}
 	}
+	// virtual hosting: the path rewriter prepends the request's host to the (already decoded) path; what the file
+	// handler then serves from must still be "the host's directory" + the path decoded ONCE and resolved
+	vhost(c)
 	enum(c, base, nb, "base", "")
 	enum(c, ext, ne, "ext", "")
 	// long targets: the same token strings behind paddings that straddle CleanPath's 128-byte stack buffer
@@ -278,6 +343,11 @@ func run(c *mc.Ctx) {
 func replay(c *mc.Ctx, raw json.RawMessage) {
 	var cs Case
 	if json.Unmarshal(raw, &cs) != nil {
+		return
+	}
+	var vc VCase
+	if json.Unmarshal(raw, &vc) == nil && vc.Host != "" {
+		vhostOne(c, app.NewVHostPathRewriter(0), app.NewContext(0), vc.Host, vc.Target)
 		return
 	}
 	if strings.HasPrefix(cs.Target, "http://") {
